@@ -9,7 +9,7 @@ One output line per input line.  See harness/c14.py for the producer.
   stepprog cmd ; …          define the user's step body
   setup | reset              (reset = Simulator.reset() followed by a fresh model: back to `init`)
   abs t p a | rel d p a | cancel k | drop k
-  until T | for d | next | peek n
+  until T | for d | next | peek n | len
 -/
 open Mesa.Devs
 
@@ -98,6 +98,7 @@ def stepLine (st : St) (ws : List String) : St × String :=
         | none => (st, "err Fuel")
         | some s' => ({ st with sim := s' }, fmtRun s s')
   | ["next"] => let s' := runNext s; ({ st with sim := s' }, fmtRun s s')
+  | ["len"] => (st, s!"ok len={s.pending.length}")   -- len(event_list): cancelled events stay until popped
   | ["peek", n] =>
       match n.toNat? with
       | none => (st, "bad-op")
